@@ -229,6 +229,9 @@ fn e1_main(a: &Args) -> i32 {
             if run2.alloc_yield {
                 bump(&mut faults, "runs-with-preemption-at-allocator-calls", 1);
             }
+            if run2.tid_offset > 0 {
+                bump(&mut faults, "caller-thread-ids-shifted", 1);
+            }
         }
         for c in rep.cells.iter() {
             if cells.len() < 20000 {
